@@ -62,7 +62,7 @@ impl Wire {
             stream_done: false,
             sent: 0,
             delivered: 0,
-            budget: 200_000,
+            budget: 5_000,
             livelock: false,
             quiet: false,
         })))
@@ -178,6 +178,7 @@ impl Sink<Bytes> for ScriptSink {
                 tr(format!("livelock {}", w.from));
             }
             w.livelock = true;
+            w.quiet = true;
         }
         if !w.quiet {
             tr(format!("tx {} {}", w.from, hex(&item)));
